@@ -128,6 +128,13 @@ func (v *VMap) validate(prefix string, tv reflect.Value) *VMap {
 			fn(v.errBuf, validName, "", v.getKey(prefix, key), val)
 		}
 	}
+
+	// map 里没有的 key 也需要验证必填
+	requiredOfMissing(v.errBuf, v.ruleObj, func(key string) bool {
+		return tv.MapIndex(reflect.ValueOf(key).Convert(tv.Type().Key())).IsValid()
+	}, func(key string) string {
+		return v.getKey(prefix, key)
+	})
 	return v
 }
 
